@@ -100,6 +100,17 @@ pub fn fill(req: &Req, mut b: UnicodeBuffer) -> UnicodeBuffer {
     b
 }
 
+/// As `fill`, but the text goes in through `push_str` (clusters become UTF-8 byte offsets; the request's own
+/// cluster numbers are not used).  `UnicodeBuffer::add` resets the post-context itself, `push_str` does not, so
+/// only this way of filling shows what a recycled buffer still carries.
+pub fn fill_push_str(req: &Req, mut b: UnicodeBuffer) -> UnicodeBuffer {
+    let s: String = req.text.iter().filter_map(|(c, _)| char::from_u32(*c)).collect();
+    b.push_str(&s);
+    let mut rest = req.clone();
+    rest.text.clear();
+    fill(&rest, b)
+}
+
 pub fn features_of(req: &Req) -> Vec<Feature> {
     req.features.iter().filter_map(|f| Feature::from_str(f).ok()).collect()
 }
